@@ -99,6 +99,8 @@ type prop struct {
 	apply   func(w *world)
 }
 
+var errHaltedAtStart = fmt.Errorf("chain halted in its first block")
+
 // Scenario implements kernel.Scenario.
 type Scenario struct{}
 
@@ -106,6 +108,9 @@ func (Scenario) Name() string { return "ag" }
 
 func (Scenario) Execute(p kernel.Plan, rec *kernel.Rec) {
 	w, err := newWorld(p.Cfg, rec)
+	if err == errHaltedAtStart {
+		return // reported as violations
+	}
 	if err != nil {
 		rec.HarnessFail("ag world: " + err.Error())
 		return
@@ -191,11 +196,15 @@ func newWorld(cfg map[string]int64, rec *kernel.Rec) (*world, error) {
 	w.vest = vestModel{enabled: cfg["vest_on"] == 1}
 	reward := sdk.NewCoins()
 	pool := sdk.NewCoins()
-	switch cfg["vest_kind"] % 8 {
+	switch cfg["vest_kind"] % 9 {
+	case 8:
+		// rewards of whole coins at 18 decimals: amounts beyond 2^63 per block and per pool
+		reward = sdk.NewCoins(sdk.NewCoin(node.Denom, sdk.NewIntWithDecimal(10+cfg["vest_pool"]%7, 18)))
+		pool = sdk.NewCoins(sdk.NewCoin(node.Denom, sdk.NewIntWithDecimal(25+cfg["vest_pool"]%40, 18)))
 	case 6, 7:
 		// many reward denominations (the begin blocker's work grows with the list)
 		n := 12
-		if cfg["vest_kind"]%8 == 7 {
+		if cfg["vest_kind"]%9 == 7 {
 			n = 24
 		}
 		for i := 0; i < n; i++ {
@@ -230,6 +239,14 @@ func newWorld(cfg map[string]int64, rec *kernel.Rec) (*world, error) {
 		return nil, fmt.Errorf("genesis: %s", w.c.Halted)
 	}
 	w.block(nil) // block 1
+	if w.c.Halted != "" {
+		// the very first block halts the chain (w.block has recorded the C15 violation): for a genesis with
+		// vesting switched on that is also a block in which nothing was released
+		if w.vest.enabled && !reward.IsZero() && !pool.IsZero() {
+			rec.Violate("C20", "release", "first_block_halts", "the first block of a genesis with vesting enabled (reward %s, pool %s) halts the chain: %s", reward, pool, w.c.Halted)
+		}
+		return nil, errHaltedAtStart
+	}
 	// external token contracts
 	w.now = w.now.Add(5 * time.Second)
 	w.c.BeginBlock(w.now)
